@@ -686,6 +686,10 @@ def special_series(m0=None):
         [[(t_rename_onto_empty, 'f', 'z', False), (t_modfail, 'd/g')]],
         [[(t_modfail, 'd/g'), (t_rename_onto_empty, 'd/h', 'z', True)]],
         [[(t_mod, 'e/i')], [(t_modfail, 'd/g')], [(t_rename_onto_empty, 'f', 'z', False)]],
+        # behind the failing patch, several patches on one file (and a rename chain): a worker that got that far has to undo them newest first
+        [[(t_mod, 'f')], [(t_modfail, 'd/g')], [(t_mod, 'f', 1, 0, 0)], [(t_mod, 'f', 1, 0, 2)], [(t_mod_ins_del, 'f')]],
+        [[(t_modfail, 'd/g')], [(t_mod_ins_del, 'f')], [(t_mod, 'f', 1, 0, 3)]],
+        [[(t_modfail, 'd/g')], [(t_rename, 'f', 'n', True)], [(t_rename, 'n', 'x/y/n', True)], [(t_mod, 'x/y/n', 1, 0, 4)]],
         # a failing rename onto a name that an earlier patch of the push removed or moved away: the name stays gone
         [[(t_delete, 'd/h', False)], [(t_rename_fail, 'f', 'd/h')]],
         [[(t_rename, 'd/h', 'n', False)], [(t_rename_fail, 'f', 'd/h'), (t_mod, 'e/i')]],
